@@ -51,7 +51,7 @@ pub fn gen_vector_sets(rng: &mut Rng, n: usize, go: &imvt::GenOpts, mixed_comp: 
 		})
 		.collect();
 	let base = *rng.pick(&comp::ALL);
-	let mut out = vec![];
+	let mut out: Vec<VecSet> = vec![];
 	for _ in 0..n {
 		let c = if mixed_comp { *rng.pick(&comp::ALL) } else { base };
 		let mut layers = BTreeMap::new();
@@ -84,6 +84,17 @@ pub fn gen_vector_sets(rng: &mut Rng, n: usize, go: &imvt::GenOpts, mixed_comp: 
 			let ls = imvt::gen_layers(rng, go);
 			blobs.insert((z, x, y), comp::compress(&imvt::encode_tile(&ls, enc, rng), c));
 			layers.insert((z, x, y), ls);
+		}
+		// the same tile in two neighbouring sources (one container listed twice, overlapping extracts of one data set):
+		// byte for byte the same content, still two tiles whose features all belong into the result
+		if let Some(prev) = out.last() {
+			if rng.chance(0.25) {
+				for (k, ls) in prev.layers.iter().take(2) {
+					let raw = comp::decompress(&prev.blobs[k], prev.comp).unwrap_or_default();
+					blobs.insert(*k, comp::compress(&raw, c));
+					layers.insert(*k, ls.clone());
+				}
+			}
 		}
 		out.push(VecSet { comp: c, layers, blobs });
 	}
@@ -153,14 +164,17 @@ pub fn update_vpl(source: &str, a: &UpdateArgs) -> String {
 		"from_container filename={source} | vectortiles_update_properties data_source_path=\"data.csv\" layer_name=\"{}\" id_field_tiles=\"{}\" id_field_data=id",
 		a.layer, a.id_field_tiles
 	);
+	// every spelling of "yes" the option parser documents by accepting it; which one is used depends on the arguments
+	let yes = ["true", "True", "TRUE", "yes", "Yes", "1", "ok", "\" true \"", "\"YES\""];
+	let pick = |salt: usize| yes[(a.layer.len() * 7 + a.replace as usize * 3 + a.remove_non_matching as usize * 5 + a.include_id as usize + salt) % yes.len()];
 	if a.replace {
-		s.push_str(" replace_properties=true");
+		s.push_str(&format!(" replace_properties={}", pick(0)));
 	}
 	if a.remove_non_matching {
-		s.push_str(" remove_non_matching=true");
+		s.push_str(&format!(" remove_non_matching={}", pick(4)));
 	}
 	if a.include_id {
-		s.push_str(" include_id=true");
+		s.push_str(&format!(" include_id={}", pick(2)));
 	}
 	s
 }
